@@ -157,16 +157,18 @@ def check(rep, tier, seed):
         # 2/3. export initial states and replay
         procs = 16
         cap = 1500 if quick else None
+        # (periodic grids need >= 3 rows / columns for the seam to be an edge of its own: on 2 rows the row seam
+        # duplicates the interior edge, on 1 row it is a self-loop)
         gens = [(2, 2, 4, 3, False, cap), (2, 2, 4, 3, True, cap), (1, 4, 4, 5, True, cap),
-                (3, 1, 4, 5, False, cap)]
+                (3, 1, 4, 5, False, cap), (3, 2, 4, 3, True, cap), (1, 3, 4, 5, True, cap), (3, 1, 4, 5, True, cap)]
         if not quick:
-            gens += [(2, 3, 4, 3, False, None), (3, 2, 4, 3, True, None), (2, 2, 6, 6, True, None)]
+            gens += [(2, 3, 4, 3, False, None), (2, 3, 4, 3, True, None), (2, 2, 6, 6, True, None)]
         for (h, w, k, a, wrap, cap) in gens:
             label = f"{h}x{w}K{k}A{a}{'wrap' if wrap else 'bounded'}"
             cases = _gen(rep, tmp, _consts(h, w, k, a, wrap), label, cap, seed)
             _replay(rep, cases, label, procs)
         sims = [(3, 4, 8, 15, False, False, 60), (4, 4, 8, 12, True, True, 40),
-                (5, 6, 16, 40, False, True, 30)]
+                (5, 6, 16, 40, False, True, 30), (4, 3, 8, 12, True, False, 120), (3, 5, 8, 12, True, False, 80)]
         if not quick:
             sims = [(3, 4, 8, 15, False, False, 1500), (4, 4, 8, 12, True, True, 1500),
                     (4, 4, 8, 12, True, False, 1000), (5, 6, 16, 40, False, True, 800),
